@@ -3,7 +3,7 @@ import os
 import vlib, e2e
 from vlib import hx, unhx, case_line, show
 
-THEOREMS = ["C08_storage_source", "C08_image_source", "C08_network", "C08_service_names", "C08_tables_set", "C08_sorted", "C08_names_along_the_run", "C08_volume_creates", "C08_network_creates", "C08_lower_priority_first", "C08_priority_table", "C08_referenced_types_first"]
+THEOREMS = ["C08_storage_source", "C08_image_source", "C08_network", "C08_service_names", "C08_tables_set", "C08_sorted", "C08_names_along_the_run", "C08_volume_creates", "C08_network_creates", "C08_lower_priority_first", "C08_priority_table", "C08_referenced_types_first", "C08_run_without_dropins_is_the_plain_run", "C08_names_follow_the_merged_unit", "C08_dropin_names_example"]
 
 SUFFIX = {"container": "", "volume": "-volume", "network": "-network", "image": "-image", "build": "-build", "pod": "-pod", "kube": ""}
 SECTION = {"container": "Container", "volume": "Volume", "network": "Network", "image": "Image", "build": "Build", "pod": "Pod", "kube": "Kube"}
@@ -237,6 +237,7 @@ def run(ctx):
     ctx.oblig("correspondence: Process/Convert model = implementation on every generated unit set (all services, all errors)", mism == 0, "%d mismatches" % mism)
     # end to end sample: the real process() with discovery and sorting
     sample = sets[: ctx.volume(40, 400)]
+    tree_mism = []
     with e2e.Box() as box:
         for i, s in enumerate(sample):
             root = box.path(str(i))
@@ -268,12 +269,46 @@ def run(ctx):
             ctx.evaluations += 1
             ctx.count("e2e_sets")
             check_set(ctx, s, recs, "e2e")
+            # correspondence of the whole pipeline with drop-ins: Model/ProcessD.v (load, merge drop-ins, THEN names, sort, convert) against
+            # the real process() -- same service file names, same Exec lines, same Requires=/After=
+            if ctx.model_ok:
+                fields = ["1"]
+                for u in s:
+                    split = u.use_dropin and bool(u.named())
+                    fields += [os.path.join(root, "u", u.fname), u.text(split=split), "1" if split else "0"] + ([u.dropin_text()] if split else [])
+                mo = vlib.run_model([case_line("convert_tree", *fields)])[0]
+                if mo not in ("SKIP",):
+                    mview = {}
+                    for r in vlib.canon_records([mo])[0]:
+                        if r.get("ok"):
+                            mview[r["svc"].decode() if isinstance(r["svc"], bytes) else r["svc"]] = (
+                                sorted((k, tuple(v)) for n, es in r["sections"] if n == "Service" for k, v in es if k.startswith("Exec")),
+                                [v for n, es in r["sections"] if n == "Unit" for k, v in es if k in ("Requires", "After")])
+                    iview = {}
+                    for pth, text in svcs.items():
+                        lines = text.split("\n")
+                        ex = [l for l in lines if l.startswith("Exec")]
+                        argvs = vlib.sd_split_many([l.split("=", 1)[1].encode() for l in ex]) if ex else []
+                        sec, deps = None, []
+                        for l in lines:
+                            if l.startswith("["):
+                                sec = l
+                            elif sec == "[Unit]" and l.split("=", 1)[0] in ("Requires", "After"):
+                                deps.append(l.split("=", 1)[1])
+                        iview[os.path.basename(pth)] = (sorted((l.split("=", 1)[0], tuple(vlib.canon_argv(a) or [])) for l, a in zip(ex, argvs)), deps)
+                    ctx.count("e2e_tree_correspondence")
+                    if mview != iview:
+                        tree_mism.append((sorted(set(mview) ^ set(iview)) or [k for k in mview if mview[k] != iview.get(k)][:2], [(u.fname, u.text(), u.use_dropin) for u in s]))
         # the same with the referring files in an earlier search directory than the files they refer to (and the other way round)
         import e2e_refs
         for b in e2e_refs.failures(e2e_refs.run(box, "c08")):
             ctx.failures.append({"set": sorted({**e2e_refs.REFERRERS, **e2e_refs.REFERENCED}.items()), "what": b, "class": None})
         ctx.evaluations += 2
         ctx.count("e2e_reference_orders", 2)
+    for d, st in tree_mism[:3]:
+        ctx.broken.append("correspondence process with drop-ins (Model/ProcessD.v vs the real run): differs at %s; set=%s" % (d, st))
+    ctx.oblig("correspondence: the run over unit files with drop-ins (names derived after merging, Model/ProcessD.v) = the real binary on every end-to-end tree (service file names, Exec lines, Requires=/After=)",
+              not tree_mism, "%d mismatches" % len(tree_mism))
     ctx.samples = [{"set": [(u.fname, u.text()) for u in s]} for s in sets[:2]]
     ctx.oblig("direct oracle: every reference to an existing, converting unit uses its actual object name and adds Requires=/After= on its actual service; a missing target fails only the referrer, naming the file",
               not ctx.failures, "%d failures" % len(ctx.failures))
